@@ -231,3 +231,84 @@ package mysql
 //@   ensures case next:   ret0 == pos + encLen(uint64(len(value))) + len(value)
 //@   ensures case enc:    decLen(data[pos]) == encLen(uint64(len(value))) && decVal(data, pos) == uint64(len(value)) && data[pos] != 0xfb
 //@   ensures case body:   forall(k, 0, len(value), data[pos + encLen(uint64(len(value))) + k] == value[k])
+
+// ---------------------------------------------------------------- C11 packet framing
+// io.ReadFull fills the whole buffer from the transport or fails (trusted; absorbs transport fragmentation)
+//@ trusted io.ReadFull
+//@   params r, buf
+//@   assigns buf
+//@   ensures ret1 == nil ==> ret0 == len(buf)
+//@ trusted (io.Writer).Write
+//@   params recv, p
+//@   pure-call
+
+// error values are created once with errors.New and never reassigned
+//@ constglobal ErrBadConn, ErrResetConn
+//@ axiom errValuesNonNil: ErrBadConn != nil && ErrResetConn != nil
+// ghost record of the last frame header read from the transport: its sequence id and payload length
+//@ ghost hdrSeq uint8
+//@ ghost hdrLen int
+//@ property C11: (*Conn).readHeaderFrom, (*Conn).readOnePacket, (*Conn).getReader, (*Conn).getWriter, (*Conn).WritePacket
+
+// A frame header is accepted only if its sequence id is the expected one; the expected id then advances by one (mod 256)
+// and the 24-bit little-endian payload length is returned.
+//@ func (*Conn).readHeaderFrom
+//@   mode bv
+//@   requires c != nil
+//@   assigns c.sequence, hdrSeq, hdrLen
+//@   ghost-update after call io.ReadFull#0: hdrSeq = header[3], hdrLen = int(uint32(header[0]) | uint32(header[1])<<8 | uint32(header[2])<<16)
+//@   ensures case sequence: ret1 == nil ==> hdrSeq == old(c.sequence)
+//@   ensures case advance:  ret1 == nil ==> c.sequence == old(c.sequence) + 1
+//@   ensures case length:   ret1 == nil ==> ret0 == hdrLen && 0 <= ret0 && ret0 <= 16777215
+//@   ensures case rejected: ret1 != nil ==> ret0 == 0 && c.sequence == old(c.sequence)
+
+//@ func (*Conn).getReader
+//@   requires c != nil
+//@   assigns \nothing
+//@ func (*Conn).getWriter
+//@   requires c != nil
+//@   assigns \nothing
+
+// bytes.Buffer as used by WritePacket: NewBuffer wraps the slice, Write appends, Bytes returns the unread part
+//@ trusted bytes.NewBuffer
+//@   params buf
+//@   pure-call
+//@   ensures ret0 != nil && fresh(ret0) && ret0.buf == buf && ret0.off == 0
+//@ trusted (*bytes.Buffer).Write
+//@   params b, p
+//@   assigns b.buf, b.buf[len(b.buf):cap(b.buf)]
+//@   ensures ret1 == nil && ret0 == len(p) && b.off == old(b.off)
+//@   ensures len(b.buf) == old(len(b.buf)) + len(p) && (fresh(b.buf) || sameArray(b.buf, old(b.buf)))
+//@   ensures forall(k, 0, old(len(b.buf)), b.buf[k] == old(b.buf[k]))
+//@   ensures forall(k, old(len(b.buf)), len(b.buf), b.buf[k] == old(p[k - len(b.buf)]))
+//@ trusted (*bytes.Buffer).Bytes
+//@   params b
+//@   pure-call
+//@   ensures ret0 == b.buf[b.off:]
+
+// ghost: number of frames handed to the transport by the current WritePacket call
+//@ ghost wk int
+// Every Write is one well-formed frame: 3-byte little-endian length, the running sequence id, the next at most
+// 2^24-1 payload bytes; a payload that is a positive multiple of 2^24-1 is followed by an empty frame; the sequence id
+// advances by one per frame.
+//@ func (*Conn).WritePacket
+//@   mode int wraps
+//@   requires c != nil
+//@   ghost-update at entry: wk = 0
+//@   ghost-update after call (io.Writer).Write#0: wk = wk + 1
+//@   loop 0 invariant 0 <= index && 0 <= length && index + length == len(data) && index == wk * 16777215
+//@   loop 0 invariant c.sequence == (old(c.sequence) + wk) % 256 && (wk == 0 || length > 0) && 0 <= wk
+//@   loop 0 assigns c.sequence
+//@   assert at call (io.Writer).Write#0: len(arg1) == 4 + packetLength && packetLength == ite(length > 16777215, 16777215, length)
+//@   assert at call (io.Writer).Write#0: arg1[0] == byte(packetLength) && arg1[1] == byte(packetLength >> 8) && arg1[2] == byte(packetLength >> 16) && arg1[3] == c.sequence
+//@   assert at call (io.Writer).Write#0: forall(j, 0, packetLength, arg1[4 + j] == data[index + j])
+//@   assert at call (io.Writer).Write#1: len(arg1) == 4 && arg1[0] == 0 && arg1[1] == 0 && arg1[2] == 0 && arg1[3] == c.sequence && len(data) > 0 && len(data) % 16777215 == 0
+//@   ensures case frames: ret0 == nil ==> c.sequence == (old(c.sequence) + len(data) / 16777215 + 1) % 256
+
+// one frame: the payload has exactly the announced length (nil for an empty frame)
+//@ func (*Conn).readOnePacket
+//@   mode bv
+//@   requires c != nil
+//@   ensures case advance: ret1 == nil ==> c.sequence == old(c.sequence) + 1
+//@   ensures case size:    ret1 == nil ==> len(ret0) <= 16777215
+//@   ensures case failed:  ret1 != nil ==> ret0 == nil
